@@ -73,18 +73,18 @@ Variable pl : list pay.
 Hypothesis H : Rep t g pl.
 Variable tables : list (list N).
 
-Lemma lay2_fuel its b off f : Forall (Desc g pl) (lay2 1 0 b off its) -> 6 <= b -> (6 <= length pl <= f + 2)%nat -> (iszs its < f)%nat.
+Lemma lay2_fuel vh vtbl its b off f : Forall (Desc g pl) (lay2 vh vtbl b off its) -> 6 <= b -> (6 <= length pl <= f + 2)%nat -> (iszs its < f)%nat.
 Proof.
   intros HD Hb Hf. destruct (iszs its) as [|n] eqn:En; [lia|].
-  assert (Hin : In (b + N.of_nat n) (rnodesl (lay2 1 0 b off its))) by (apply lay2_nodes_all; lia).
+  assert (Hin : In (b + N.of_nat n) (rnodesl (lay2 vh vtbl b off its))) by (apply lay2_nodes_all; lia).
   unfold rnodesl in Hin. apply in_flat_map in Hin. destruct Hin as (r & Hr & Hy). rewrite Forall_forall in HD.
   destruct (Desc_lookup g pl r (HD r Hr) _ Hy) as (a & ks & Dy). destruct (Desc_inv _ _ _ _ _ Dy) as (Py & _ & _).
   apply pget_lt in Py. lia.
 Qed.
 
-Lemma keep_fold f known : forall ts es st b off,
-  Forall (Desc g pl) (keep b off ts) -> forallb titem_okb ts = true -> 6 <= b -> (6 <= length pl <= f + 2)%nat ->
-  fold_left (walkF t tables f known []) (map ridx (keep b off ts)) (es, st) = (es ++ vkeep ts, st).
+Lemma keep_fold vh vtbl f known : forall ts es st b off,
+  Forall (Desc g pl) (keep vh vtbl b off ts) -> forallb titem_okb ts = true -> 6 <= b -> (6 <= length pl <= f + 2)%nat ->
+  fold_left (walkF t tables f known []) (map ridx (keep vh vtbl b off ts)) (es, st) = (es ++ vkeep ts, st).
 Proof.
   induction ts as [|x ts IH]; intros es st b off HD Hok Hb Hf.
   - cbn [keep map fold_left vkeep flat_map]. rewrite app_nil_r. reflexivity.
@@ -92,14 +92,14 @@ Proof.
     cbn [keep] in HD |- *. apply Forall_app in HD. destruct HD as [HDx HDr]. rewrite map_app, fold_left_app.
     destruct x as [it|k root d body].
     + cbn [titem_okb] in Hx. rewrite <- lay2_single in HDx |- *.
-      rewrite (vspec_all t g pl H tables [it] f known [] es st b off HDx ltac:(cbn [forallb]; rewrite Hx; reflexivity) (lay2_fuel _ _ _ _ HDx Hb Hf)).
+      rewrite (vspec_all t g pl H tables [it] vh vtbl f known [] es st b off HDx ltac:(cbn [forallb]; rewrite Hx; reflexivity) (lay2_fuel _ _ _ _ _ _ HDx Hb Hf)).
       rewrite (IH _ st _ _ HDr Hok ltac:(lia) Hf). cbn [vkeep flat_map ventries]. rewrite app_nil_r, <- app_assoc. reflexivity.
     + cbn [map fold_left]. rewrite (IH _ st _ _ HDr Hok ltac:(lia) Hf). reflexivity.
 Qed.
 
-Lemma moved_fold f known d : forall ts es st b off,
-  Forall (Desc g pl) (moved b off ts d) -> forallb titem_okb ts = true -> 6 <= b -> (6 <= length pl <= f + 2)%nat ->
-  fold_left (walkF t tables f known [dseg d]) (map ridx (moved b off ts d)) (es, st) = (es ++ vmoved ts d, st).
+Lemma moved_fold vh vtbl f known d : forall ts es st b off,
+  Forall (Desc g pl) (moved vh vtbl b off ts d) -> forallb titem_okb ts = true -> 6 <= b -> (6 <= length pl <= f + 2)%nat ->
+  fold_left (walkF t tables f known [dseg d]) (map ridx (moved vh vtbl b off ts d)) (es, st) = (es ++ vmoved ts d, st).
 Proof.
   induction ts as [|x ts IH]; intros es st b off HD Hok Hb Hf.
   - cbn [moved map fold_left vmoved flat_map]. rewrite app_nil_r. reflexivity.
@@ -109,7 +109,7 @@ Proof.
     + cbn [map fold_left]. rewrite (IH _ st _ _ HDr Hok ltac:(lia) Hf). reflexivity.
     + cbn [titem_okb] in Hx. apply andb_prop in Hx. destruct Hx as [_ Hbody].
       cbn [vmoved flat_map]. fold (vmoved ts d). destruct (d' =? d).
-      * rewrite (vspec_all t g pl H tables body f known [dseg d] es st _ _ HDx Hbody (lay2_fuel _ _ _ _ HDx ltac:(lia) Hf)).
+      * rewrite (vspec_all t g pl H tables body vh vtbl f known [dseg d] es st _ _ HDx Hbody (lay2_fuel _ _ _ _ _ _ HDx ltac:(lia) Hf)).
         rewrite (IH _ st _ _ HDr Hok ltac:(lia) Hf). rewrite <- app_assoc. reflexivity.
       * cbn [map fold_left]. rewrite (IH _ st _ _ HDr Hok ltac:(lia) Hf). reflexivity.
 Qed.
@@ -135,17 +135,17 @@ Proof.
   assert (Hleaf : forall d es, 1 <= d <= 5 ->
             walkF t tables (S (length (t_pool t))) known [] (es, []) d = (es ++ vmoved ts d, [])).
   { intros d es Hd.
-    assert (Dd : Desc g pl (RN d (dpay d) (moved 6 aml_sizeofSDTHeader ts d))).
+    assert (Dd : Desc g pl (RN d (dpay d) (moved 1 0 6 aml_sizeofSDTHeader ts d))).
     { rewrite Forall_forall in HDl. apply HDl. apply in_map_iff. exists d. split; [reflexivity|]. unfold D0'. cbn [In]. lia. }
     destruct (Desc_inv _ _ _ _ _ Dd) as (Pd & Kd & HDm).
     destruct (view_obj t g pl d _ H Pd ltac:(discriminate)) as (co & Hco & Epco & Hkco).
     destruct (dname_num d Hd) as (En & Ez).
     apply (walkF_scope t tables _ known [] es [] d co); [exact Hco|rewrite (pay_op _ _ Epco); reflexivity|rewrite (pay_name _ _ Epco); exact Ez|].
     rewrite walk_S, Hco, Hkco, Kd, (pay_name _ _ Epco). cbn [dpay y_name app]. rewrite En.
-    rewrite (moved_fold (length (t_pool t)) known d ts [] [] _ _ HDm Hok ltac:(lia) Hlen). reflexivity. }
+    rewrite (moved_fold 1 0 (length (t_pool t)) known d ts [] [] _ _ HDm Hok ltac:(lia) Hlen). reflexivity. }
   cbn [D0' map ridx fold_left].
   rewrite (Hleaf 1 []) by lia. rewrite (Hleaf 2) by lia. rewrite (Hleaf 3) by lia. rewrite (Hleaf 4) by lia. rewrite (Hleaf 5) by lia.
-  rewrite (keep_fold (S (length (t_pool t))) known ts _ [] _ _ HD2 Hok ltac:(lia) ltac:(lia)).
+  rewrite (keep_fold 1 0 (S (length (t_pool t))) known ts _ [] _ _ HD2 Hok ltac:(lia) ltac:(lia)).
   cbn [app anon map]. rewrite app_nil_r. unfold view3. rewrite <- !app_assoc. reflexivity.
 Qed.
 End ViewF3.
